@@ -12,8 +12,11 @@ S->C : Gen_Pipeline exports one shortest witness program per abstract
        situation (directory states x provenance x kind/exit of the last
        command x "last two commands identical"); a stratified seeded sample is
        run as REAL sub-processes on synthetic NIfTI volumes and PNG/TIFF slice
-       stacks (data types, channels, RGB, anisotropy, thick slices, 1-3
-       scales, orientation codes, layouts flat/gzip, sharding),
+       stacks (data types, channels, RGB, header value scaling with and
+       without --ignore-scaling, anisotropy, thick slices, 1-3 scales,
+       orientation codes, layouts flat/gzip, sharding), plus directed programs
+       of the environment class "obstructed destination" (a regular file where
+       the last scale's directory must be created, plain and sharded),
        snapshotting exit code, info files and all decoded chunks after every
        command.
 C->S : every recorded trace is judged by Trace_Pipeline (oracle clauses on
@@ -38,8 +41,10 @@ DATA_OPS = ("Vol", "Slices", "Compute", "Convert")
 # ---------------------------------------------------------------------------
 # volumes
 # ---------------------------------------------------------------------------
-IMAGE_CLASSES = ["uint8", "uint16", "float32", "uint8:rgb", "int16", "uint8:c2", "float32:q",
-                 "float64", "uint8:c3", "uint32"]
+# ":scl" = header value scaling (scl_slope 2, scl_inter 10); "+ign" = every volume command of the
+# program gets --ignore-scaling (stored values are converted)
+IMAGE_CLASSES = ["uint8", "uint8:scl+ign", "float32", "uint8:rgb", "int16", "uint8:c2", "float32:q",
+                 "uint16", "int16:scl", "float64", "uint8:c3", "uint32", "uint16:scl+ign"]
 INT_CLASSES = ["uint8", "uint32", "uint16", "uint64"]
 # programs that write slice stacks (PNG / TIFF): 8/16-bit grey, RGB, two directories as channels
 SLICE_CLASSES = ["uint8", "uint16", "uint8:rgb", "uint8:c2", "uint16", "uint8"]
@@ -110,7 +115,10 @@ def pick_volume(rng, cmds, turn=0, allow_rgb=True):
     spec["dtype"] = klass.split(":")[0]
     if klass == "float32:q":
         spec["quarters"] = True
-    if klass in ("int16", "float64"):
+    if ":scl" in klass:
+        spec["scl"] = [2.0, 10.0]
+        spec["ignore_scaling"] = klass.endswith("+ign")
+    if klass in ("int16", "float64") or (":scl" in klass and not klass.endswith("+ign")):
         spec["perfect"] = False           # data type adjusted by --generate-info: exit status 4
     if klass.startswith("uint8:c") and not sharded:
         spec["shape"] = shape + [int(klass[-1])]
@@ -126,7 +134,8 @@ def make_prog(rng, beh, turn=0):
     """turn: position of the program inside its stratum - volume classes rotate"""
     cmds = [pd.parse_cmd(s) for s in beh["prog"]]
     lay = {"A": rng.choice(list(pd.LAYOUTS)), "B": rng.choice(list(pd.LAYOUTS))}
-    return {"vol": pick_volume(rng, cmds, turn), "cmds": cmds, "lay": lay,
+    vol = pick_volume(rng, cmds, turn)
+    return {"vol": vol, "cmds": cmds, "lay": lay, "ignore_scaling": bool(vol.pop("ignore_scaling", False)),
             "explicit": rng.random() < 0.4, "seed": rng.randrange(1 << 30),
             "docs_shflag": rng.random() < 0.6,
             "shard_enc": rng.choice(["gzip", "raw"]),
@@ -143,6 +152,10 @@ def stratum(b):
     sharded = "S" in b["cls"]
     if b["pair"] and b["ex"] == 0:
         return "pair"
+    if b["op"] == "AllInOne" and b["ex"] != 0:
+        # the all-in-one command on a directory that already holds an info: written by
+        # generate-scales-info, no chunk yet ("e"), or a complete earlier run ("f")
+        return "aio-on-info-only" if b["cls"] == "e" else ("aio-rerun" if b["rep"] else "refused:AllInOne")
     if b["rep"] and b["op"] in DATA_OPS and b["ex"] == 0:
         if b["op"] == "Convert":
             return "repeat-convert:" + b["cls"]
@@ -168,7 +181,8 @@ def stratum(b):
     return "other"
 
 
-QUOTA = [("pair", 0.27), ("repeat-data", 0.08), ("repeat-data-sharded", 0.06),
+QUOTA = [("pair", 0.27), ("aio-on-info-only", 0.04), ("aio-rerun", 0.02),
+         ("repeat-data", 0.08), ("repeat-data-sharded", 0.06),
          ("repeat-slices", 0.05), ("repeat-slices-sharded", 0.03), ("convert-from-slices", 0.04),
          ("slices-compute", 0.03), ("slices-stats", 0.02),
          ("repeat-convert:PPkeep", 0.02), ("repeat-convert:PPcopy", 0.02),
@@ -229,6 +243,53 @@ def select(ctx, behs, n):
     return chosen[:n], {k: len(v) for k, v in by.items()}
 
 
+def obstructed_programs(ctx):
+    """ENVIRONMENT class "obstructed destination": a regular file occupies the path of the last
+    scale's directory (plain and sharded datasets) before the data-writing commands run.  The
+    exit-status clause is judged as everywhere: a command that exits 0 must have written every
+    chunk it is responsible for, readable; refusing with a non-zero status is fine."""
+    C = pd.cmd
+    rng = ctx.rng
+    out = []
+
+    def prog(vol, cmds, **kw):
+        p = {"vol": vol, "cmds": cmds, "lay": {"A": rng.choice(list(pd.LAYOUTS)), "B": rng.choice(list(pd.LAYOUTS))},
+             "explicit": rng.random() < 0.4, "seed": rng.randrange(1 << 30), "docs_shflag": rng.random() < 0.6,
+             "shard_enc": rng.choice(["gzip", "raw"]), "feat": {"env": "obstructed"}}
+        p.update(kw)
+        return p
+
+    def vol(shape, voxel, dtype="uint8"):
+        return {"shape": shape, "voxel": voxel, "dtype": dtype, "kind": "noise", "perfect": True,
+                "nall": min(3, pd.n_levels(shape, voxel))}
+
+    iso = [1.0, 1.0, 1.0]
+    gen = lambda sh, typ="image", enc="raw": [C("GenInfo", "A", sh=sh),
+                                              C("GenScales", "A", src="A", type=typ, enc=enc, max="all")]
+    variants = [("s110", [rng.randint(257, 290), 3, 2], iso), ("nosh", [rng.randint(257, 300), 3, 2], [1.0, 2.0, 4.0]),
+                ("s110", [rng.randint(130, 200), 4, 3], iso)]
+    if not ctx.quick:
+        variants += [(rng.choice(["s110", "nosh"]), [rng.randint(130, 300), rng.randint(2, 4), rng.randint(2, 3)], iso)
+                     for _ in range(12)]
+    for k, (sh, shape, voxel) in enumerate(variants):
+        v = vol(shape, voxel, ["uint8", "uint16"][k % 2])
+        # pyramid computation into an obstructed last scale; statistics afterwards
+        out.append(prog(v, gen(sh) + [C("Obstruct", "A"), C("Vol", "A"), C("Compute", "A", m="auto"),
+                                      C("Compute", "A", m="auto"), C("Stats", "A")]))
+    # conversion into an obstructed destination (plain and sharded), single-scale volume conversion
+    v = vol([rng.randint(257, 290), 3, 2], iso)
+    out.append(prog(v, gen("nosh") + [C("Vol", "A"), C("Compute", "A", m="auto"),
+                                      C("GenScales", "B", src="A", type="image", enc="raw", max="all"),
+                                      C("Edit", "B", sh="s110"), C("Obstruct", "B"),
+                                      C("Convert", "B", src="A", copy="keep")]))
+    out.append(prog(vol([rng.randint(140, 250), 4, 3], [1.0, 4.0, 4.0], "uint16"),
+                    gen("nosh") + [C("Vol", "A"), C("Compute", "A", m="auto"),
+                                   C("GenScales", "B", src="A", type="image", enc="raw", max="all"),
+                                   C("Obstruct", "B"), C("Convert", "B", src="A", copy="keep")]))
+    out.append(prog(vol([40, 5, 4], iso), gen("s110") + [C("Obstruct", "A"), C("Vol", "A"), C("Stats", "A")]))
+    return out
+
+
 def nontrivial_key(p):
     return json.dumps([[pd.cmd_str(c) for c in p["cmds"]], p["vol"]["dtype"], p["vol"]["shape"],
                        p["vol"]["voxel"], bool(p["vol"].get("rgb")), p["lay"]])
@@ -276,12 +337,16 @@ def run(ctx):
         "(same --type/--encoding, no --max-scales); Vol; Compute (same method) on an empty directory, "
         "all exit 0 (GenInfo may exit 4); layout options do not enter (decoded contents are compared)",
         "clause (b) applies when the first of two identical consecutive commands exited 0",
+        "clause (c) is judged under the environment condition 'obstructed destination' as well: a command "
+        "that cannot create the last scale's directory may exit non-zero, but not 0 with chunks missing",
+        "--ignore-scaling is an option of the program: it is given to every volume command (generate-info, "
+        "conversion, all-in-one) or to none",
         "decoded contents are read back in-process with fresh accessors of the package under test",
         "TLC 1.8 evaluates the specification faithfully; the driver only records and re-encodes",
     ]
     run_mc(ctx)
     behs = export_programs(ctx)
-    n = ctx.pick(44, 600)
+    n = ctx.pick(48, 600)
     chosen, left = select(ctx, behs, n)
     progs = []
     ctx.notes["strata_selected"] = {}
@@ -292,6 +357,9 @@ def run(ctx):
         progs.append(make_prog(ctx.rng, b, turn=turns.get(fam, 0)))
         turns[fam] = turns.get(fam, 0) + 1
         ctx.notes["strata_selected"][k] = ctx.notes["strata_selected"].get(k, 0) + 1
+    env_progs = obstructed_programs(ctx)
+    ctx.notes["obstructed_destination_programs"] = len(env_progs)
+    progs += env_progs
     res = pc.run_and_judge(ctx, progs, workers=12, chunk=120, label="gen")
     agree = 0
     for p, case, (st, clause, pos) in res:
